@@ -631,7 +631,7 @@ _RT_METHODS = {("celem", "sqrt", 0): dict(g="osqrt RA {0}", ret="celem", fallibl
                ("celem", "abs", 0): dict(g="kabs RA {0}", ret="elem"),
                ("elem", "abs", 0): dict(g="rfabs RA {0}", ret="elem"),
                ("elem", "sqrt", 0): dict(g="sqrt {0}", ret="elem"),
-               ("cvec", "size", 0): dict(g="length {0}", ret="usize")}
+               ("cvec", "size", 0): dict(g="length {0}", ret="usize"), ("cvec", "len", 0): dict(g="length {0}", ret="usize")}
 _RT_PATHS = {("Cmplx::new", 2): dict(g="(mkk RA {0} {1})", ret="celem", atom=True, args=["elem", "elem"]),
              ("Cmplx::zero", 0): dict(g="(@zero CA)", ret="celem", atom=True),
              ("Cmplx::polar", 2): dict(g="opolar RA {0} {1}", ret="celem", fallible=True, args=["elem", "elem"]),
@@ -654,10 +654,17 @@ MODULES["Roots"] = dict(
         # poly_solve: its callees are the model functions (each proved equal to its own source above); Self::laguer with its
         # three `&mut` operands is the model's laguer with the trace projected away
         dict(name="poly_solve", file=P_MOD, impl=RT_IMPL, fn="poly_solve"),
+        # the two public entry points: Polynomial<f64>::roots (every coefficient converted with Cmplx::new(c, 0.0)) and
+        # Polynomial<Cmplx>::roots (the coefficients copied)
+        dict(name="roots_f64", file=P_MOD, impl=r"^Polynomial<f64>$", fn="roots"),
+        dict(name="roots_cplx", file=P_MOD, impl=RT_IMPL, fn="roots"),
     ])
+MODULES["Roots"]["spec"]["fields"][("cvec", "coeffs")] = ("{0}", "cvec")
 _RT_PATHS.update({
     ("Polynomial::quadratic_solve", 3): dict(g="quadratic_solve RA {0} {1} {2}", ret="cvec", fallible=True, args=["celem"] * 3),
     ("Polynomial::cubic_solve", 4): dict(g="cubic_solve RA {0} {1} {2} {3}", ret="cvec", fallible=True, args=["celem"] * 4),
+    ("Vector::new", 2): dict(g="repeat {1} {0}", ret="cvec", args=["usize", "celem"]),
+    ("Polynomial::poly_solve", 2): dict(g="(let* r := poly_solve RA {0} {1} in Ok (fst r))", ret="cvec", fallible=True, args=["cvec", "bool"]),
     ("Self::laguer", 3): dict(g="(let* l := laguer RA {0} {1} in Ok ({0}, lx l, liters l))", ret="unit", fallible=True,
                               out=["arg0", "arg1", "arg2"], args=["cvec", "celem", "usize"]),
 })
